@@ -446,6 +446,11 @@ class GraphParser:
                 raise GraphParseError(
                     "The graph OR operator is "
                     f"'{self.__class__.OP_OR}': {line}")
+            # Check for missing or adjacent operators, e.g. "a & | b", "a (b)".
+            if re.search(
+                r'[&|][&|)]|[&|]=>|(=>|\()[&|]|\(\)|[^&|(>]\(|\)[^&|)=]', line
+            ):
+                raise GraphParseError(f"Bad operator sequence: {line}")
             # Check node syntax. First drop all non-node characters.
             node_str = line
             for spec in [
